@@ -7,11 +7,12 @@ import dbutil
 PROPS = ('GambitV.Props.C06', 'GambitV.C06')
 TIE = []
 RULE = ('(multi-contig genome, variant) where a variant applies any of: reverse-complement of any subset of contigs, contig permutation, case pattern '
-        '(upper / lower / random), line width in {1, 2, 7, 60, 80, none}, LF / CRLF, with / without final newline, gzip or not, file extension independent of the '
+        '(upper / lower / random), line width in {1, 2, 7, 60, 80, none}, LF / CRLF, with / without final newline, plain / gzip / multi-member gzip, an unrelated '
+        'truncated file failing just before, contigs > 2^20 nt with occurrences planted across power-of-two offsets on either strand, file extension independent of the '
         'compression. For each genome: (i) the records the real SequenceFile.parse yields = the Lean FASTA model of the bytes written; (ii) the signature of every '
         'variant file = the union (computed in Lean) of the real calc_signature of each contig alone, hence identical across variants; (iii) compression is guessed '
         'from the first two bytes. Non-trivial = distinct variant of a genome with >= 2 contigs and a non-empty signature.')
-TRUSTED = ['harness/props/c06.py + Driver/C06.lean', 'Biopython FASTA parser and gzip are trusted only on the generated shapes (records compared with the Lean model)']
+TRUSTED = ['harness/props/c06.py + Driver/C06.lean', 'for contigs > 2^20 nt the per-contig reference is a plain byte search in the harness (ref_sig), compared with the Lean model on a window around every planted occurrence', 'Biopython FASTA parser and gzip are trusted only on the generated shapes (records compared with the Lean model)']
 ASSUMPTIONS = []
 
 
@@ -38,6 +39,42 @@ def make_genome(rng, kspec):
 	return contigs
 
 
+_COMP = bytes.maketrans(b'ACGTacgt', b'TGCAtgca')
+
+
+def materialize(c):
+	"""a contig of a case: hex text, or {'L': length, 'plants': [[offset, hex unit], ...]} = 'C' filler with planted units"""
+	if isinstance(c, str):
+		return bytes.fromhex(c)
+	s = bytearray(b'C' * c['L'])
+	for off, unit in c['plants']:
+		u = bytes.fromhex(unit)
+		s[off:off + len(u)] = u
+	return bytes(s[:c['L']])
+
+
+def ref_sig(k, prefix, seq):
+	"""reference signature of one upper-case contig by plain byte search (used for contigs too long for the Lean driver; checked
+	against the Lean model on a window around every planted unit)"""
+	pre = prefix.encode()
+	out = set()
+	code = {65: 0, 67: 1, 71: 2, 84: 3}
+	for strand in (seq, seq.translate(_COMP)[::-1]):
+		i = strand.find(pre)
+		while i >= 0:
+			km = strand[i + len(pre): i + len(pre) + k]
+			if len(km) == k:
+				v = 0
+				for b in km:
+					if b not in code:
+						break
+					v = v * 4 + code[b]
+				else:
+					out.add(v)
+			i = strand.find(pre, i + 1)
+	return sorted(out)
+
+
 def check(ctx, case):
 	import numpy as np
 	from gambit.kmers import KmerSpec
@@ -48,9 +85,18 @@ def check(ctx, case):
 	sc = dbutil.Scratch('gv_c06_')
 	try:
 		kspec = KmerSpec(case['k'], case['prefix'])
-		contigs = [bytes.fromhex(h) for h in case['contigs']]
-		per_contig = [calc_signature(kspec, c).tolist() for c in contigs]
+		contigs = [materialize(h) for h in case['contigs']]
 		lines, pf = [], []
+		per_contig = []
+		for h, c in zip(case['contigs'], contigs):
+			if isinstance(h, str):
+				per_contig.append(calc_signature(kspec, c).tolist())
+			else:
+				# long contig: independent reference, itself checked against the Lean model on a window around every plant
+				per_contig.append(ref_sig(case['k'], case['prefix'], c))
+				for off, unit in h['plants']:
+					win = c[max(0, off - 40): off + len(unit) // 2 + 40]
+					lines.append(f'c01.sig {case["k"]} {hx(case["prefix"].encode())} {hexlist([win])} {kspec.index_dtype.itemsize} {nats(ref_sig(case["k"], case["prefix"], win))}')
 		base_sig = None
 		for v in case['variants']:
 			cs = [contigs[i] for i in v['perm']]
@@ -64,8 +110,17 @@ def check(ctx, case):
 			dbutil.write_fasta(p, cs, width=v['width'], eol=v['eol'], final_newline=v['final_nl'], gz=v['gz'])
 			raw = p.read_bytes()
 			lines.append(f'c06.gz {hx(raw[:4])} {b01(guess_compression(io.BytesIO(raw)) == "gzip")}')
-			if v['gz'] != (guess_compression(io.BytesIO(raw)) == 'gzip'):
+			if bool(v['gz']) != (guess_compression(io.BytesIO(raw)) == 'gzip'):
 				pf.append('compression guess does not follow the content')
+			if v.get('after_fail'):
+				# an unrelated file fails part-way (truncated gzip) and the caller carries on with this genome
+				decoy = b'>d\n' + b'C' * 50 + (case['prefix'].encode() + b'G' * case['k'] + b'C' * 30) * 40 + b'\n'
+				bad = sc.path(f'bad{len(lines)}.fa.gz')
+				bad.write_bytes(gzip.compress(decoy * 30)[:-40])
+				try:
+					calc_file_signature(kspec, SequenceFile(bad, 'fasta', 'auto'))
+				except Exception:
+					pass
 			text = gzip.decompress(raw) if v['gz'] else raw
 			sf = SequenceFile(p, 'fasta', 'auto')
 			try:
@@ -75,7 +130,7 @@ def check(ctx, case):
 			except Exception as e:
 				pf.append(f'variant {v} failed: {exc_kind(e)}: {e}')
 				continue
-			if len(text) < 6000:
+			if len(text) < 6000:     # (multi-member files: `text` is the concatenation of the members, as gzip defines it)
 				lines.append(f'c06.parse {hx(text)} {hexlist(real_recs)}')
 			elif real_recs != cs:
 				pf.append('parsed records differ from the contigs written')
@@ -111,5 +166,32 @@ def run(ctx):
 			perm = list(range(n)); rng.shuffle(perm)
 			variants.append({'perm': perm, 'flip': [rng.random() < 0.5 for _ in range(n)], 'case': rng.choice(['upper', 'lower', 'mixed']), 'seed': rng.randrange(10 ** 6),
 			                 'width': rng.choice([1, 2, 7, 60, 80, None]), 'eol': rng.choice(['\n', '\r\n']), 'final_nl': rng.random() < 0.6,
-			                 'gz': rng.random() < 0.4, 'ext': rng.choice(exts)})
+			                 'gz': rng.choice([False, False, False, True, True, 'multi']), 'after_fail': rng.random() < 0.15, 'ext': rng.choice(exts)})
 		sub({'k': k, 'prefix': prefix, 'contigs': [c.hex() for c in contigs], 'variants': variants}, 'genome-variants')
+	# long contigs: occurrences planted around power-of-two offsets (a piece-wise search must not lose what straddles a seam)
+	for j in range(ctx.q(6, 40)):
+		if not ctx.time_left(0.97):
+			break
+		k, prefix = rng.choice([(11, 'ATGAC'), (11, 'ATGAC'), (7, 'ATG'), (5, 'AT')])
+		span = len(prefix) + k
+		L = 2 ** 20 + rng.randint(span + 1, 5000)
+		plants = []
+		for seam in (2 ** 16, 2 ** 17, 2 ** 19, 2 ** 20):
+			# the occurrence covers [seam - d, seam - d + span): d = 1 crosses the seam by all but one position, d = span - 1 by one
+			d = rng.randint(0, len(prefix) + 1) if rng.random() < 0.6 else rng.randint(0, span + 2)
+			rev = rng.random() < 0.5
+			if seam == 2 ** 20:
+				d = [1, span - 1, 2, len(prefix) - 1 or 1][j % 4] if j < 8 else d
+				rev = (j // 2) % 2 == 1 if j < 8 else rev
+			unit = prefix.encode() + dbutil.rand_dna(rng, k, b'CG')
+			if rev:
+				unit = unit.translate(_COMP)[::-1]
+			plants.append([seam - d, unit.hex()])
+		contigs = [{'L': L, 'plants': plants}] + [dbutil.rand_dna(rng, 200).hex() for _ in range(rng.choice([0, 1]))]
+		n = len(contigs)
+		variants = [{'perm': list(range(n)), 'flip': [False] * n, 'case': 'upper', 'width': 80, 'eol': '\n', 'final_nl': True, 'gz': False, 'ext': '.fasta'}]
+		for _ in range(2):
+			perm = list(range(n)); rng.shuffle(perm)
+			variants.append({'perm': perm, 'flip': [True] * n, 'case': rng.choice(['upper', 'lower']), 'seed': 1,
+			                 'width': rng.choice([60, 80, None]), 'eol': '\n', 'final_nl': True, 'gz': rng.choice([False, True]), 'ext': '.fa'})
+		sub({'k': k, 'prefix': prefix, 'contigs': contigs, 'variants': variants}, 'long-contig-seams')
